@@ -1,6 +1,6 @@
 """C12 — rolling back to a retained height restores exactly that height's state."""
 from ..runner import EngineSpec, PropSpec
-from .. import gen_ledger
+from .. import gen_ledger, mon_exec
 from . import register
 
 
@@ -8,11 +8,91 @@ def gen(rng, n, tier):
     return gen_ledger.gen(rng, n, tier, deep=True, blocks=(3, 9))
 
 
+def gen_facade(rng, n, tier):
+    """`Ledger.Rollback` — state ledger and chain ledger together, as the node's own rollback uses it: chains of 5 to 17 blocks
+    (past 11 the journal window moves and a low target must be refused), a rollback to a height inside the window / below it /
+    above the head / the head itself on the stopped node, a start, and more blocks on top"""
+    import random as _r
+    from ..core import History
+    from .. import gen_exec
+    hs = []
+    for k in range(n):
+        r = _r.Random(rng.getrandbits(64))
+        g = gen_exec.ExecGen(r, focus="single", audit=False, price=1)
+        long = k % 2 == 0
+        for _ in range(r.randint(7, 11) if long else r.randint(2, 5)):
+            g.block()
+            g.observe()
+        tags = {"facade"}
+        for _ in range(r.randint(1, 2)):
+            head = g.height
+            minj = max(1, head - 10)
+            kind = r.choice(["below", "below", "inside", "inside", "head", "above"] if minj > 1 else ["inside", "inside", "head", "above"])
+            if kind == "below":
+                t = r.randint(1, minj - 1)
+            elif kind == "inside":
+                t = r.randint(max(6, minj), head)
+            elif kind == "head":
+                t = head
+            else:
+                t = head + r.randint(1, 3)
+            g.ops.append(f"lrollback {t}")
+            tags.add("lrollback:" + kind)
+            if kind == "inside":
+                g.height = t
+            g.observe()
+            for _ in range(r.randint(1, 3)):
+                g.block()
+                g.observe()
+        hs.append(History(g.ops, tags=g.tags | tags))
+    return hs
+
+
+def mon_facade(h, obs):
+    """a refused rollback changes nothing; an accepted one leaves all stores at the target"""
+    import re
+    from ..runner import Hit
+    hits = []
+    head = None
+    for op, o in zip(h.ops, obs):
+        w = op.split()
+        m = re.match(r"^h=(\d+) ", o or "")
+        if w[0] in ("block", "reorg") and m:
+            head = int(m.group(1))
+        elif w[0] == "world":
+            m2 = re.search(r"h=(\d+)", o or "")
+            head = int(m2.group(1)) if m2 else None
+        elif w[0] == "lrollback" and head is not None and o:
+            m3 = re.match(r"^(ok|err:\S+)(?: reopen-err:\S+)? h=(\d+)", o)
+            if not m3:
+                hits.append(Hit("C12/facade/rollback-broke-the-node", f"`{op}` at head {head}: {o[:160]}", detail=op))
+                break
+            res, hh = m3.group(1), int(m3.group(2))
+            if "STORES-DISAGREE" in o:
+                hits.append(Hit("C12/facade/stores-disagree-after-rollback", f"`{op}` at head {head} answered {res}: {o[:200]}", detail=op))
+                break
+            if res.startswith("err") and hh != head:
+                hits.append(Hit("C12/facade/refused-rollback-changed-the-chain", f"`{op}` at head {head} was refused ({res}) but the chain is now at {hh}", detail=op))
+                break
+            if res == "ok" and hh != int(w[1]):
+                hits.append(Hit("C12/facade/rollback-not-at-target", f"`{op}` at head {head} answered ok but the chain is at {hh}", detail=op))
+                break
+            head = hh
+    return hits
+
+
+def tags_facade(h, obs):
+    return {t for t in h.tags if t.startswith("lrollback")}
+
+
 register(PropSpec(
     "C12",
-    engines=[EngineSpec("ledger", gen, gen_ledger.mon_c12, gen_ledger.tags_ledger, quick_n=300, thorough_n=8000)],
+    engines=[EngineSpec("ledger", gen, gen_ledger.mon_c12, gen_ledger.tags_ledger, quick_n=300, thorough_n=8000),
+             EngineSpec("exec", gen_facade, mon_facade, tags_facade, quick_n=40, thorough_n=800, mask=mon_exec.mask_unmodelled)],
     rule="ledger engine: block histories with creations, overwrites, deletions, delete-then-recreate, code changes, touched-but-unchanged accounts, "
          "every 4th history longer than the 10-block journal window; rollback targets current/-1/-2/random/0/above head, full state dump after every "
          "rollback compared with the dump recorded when that height was committed; refusals must leave the version unchanged; "
-         "non-trivial = a rollback outcome tag; distinct = distinct op list + tag set",
+         "non-trivial = a rollback outcome tag; distinct = distinct op list + tag set. exec engine: Ledger.Rollback (state and chain ledger together) on real nodes "
+         "after 8 to 17 blocks of interchain traffic, targets inside / below the journal window, the head, above the head; a refusal must leave chain, state and executor where "
+         "they were, an accepted rollback leaves all three at the target; more blocks are executed on top and compared with the model",
 ))
